@@ -175,8 +175,19 @@ func dumpStage(y coqx.Syn, p *logql_parser.StrSelectorPipeline) string {
 					path = y.Some(y.List(xs))
 				}
 			} else if arr, err := shared.JsonPathParamToArray(v); err == nil {
+				// an [n] part (typed int by JsonPathParamToTypedArray) is handed over as the byte 0 followed by the digits
+				// of n+1: the planner prints it as a bare number (model LogqlPlan.json_part); a key that begins with the
+				// byte 0 gets that byte doubled
+				typed, terr := shared.JsonPathParamToTypedArray(v)
 				var xs []string
-				for _, a := range arr {
+				for i, a := range arr {
+					if terr == nil && i < len(typed) {
+						if _, isIdx := typed[i].(int); isIdx {
+							a = "\x00" + a
+						} else if len(a) > 0 && a[0] == 0 {
+							a = "\x00" + a // a key that begins with the byte 0: doubled, so that it is no index part
+						}
+					}
 					xs = append(xs, y.Str(a))
 				}
 				path = y.Some(y.List(xs))
